@@ -429,6 +429,311 @@ impl<const N: usize> ScenN<N> {
         out
     }
 
+    /// `killcheck <ackfile>`: the directory was left behind by a process killed with SIGKILL.  `ackfile` lists the
+    /// writes that process had acknowledged (`<keyhex> <len> <seed>` per line, every key written once).  Every
+    /// acknowledged record must be served with its bytes, or be restorable by the recovery tool from a blob that was
+    /// quarantined; then a fresh write must survive a clean restart without index files.
+    fn killcheck(&mut self, ackfile: &str) -> String {
+        use pearl::tools::recovery_blob;
+        let acks: Vec<(String, usize, u64)> = std::fs::read_to_string(ackfile)
+            .unwrap_or_default()
+            .lines()
+            .filter_map(|l| {
+                let t: Vec<&str> = l.split_whitespace().collect();
+                if t.len() == 3 { Some((t[0].to_string(), t[1].parse().ok()?, t[2].parse().ok()?)) } else { None }
+            })
+            .collect();
+        let mut missing: Vec<(String, usize, u64)> = Vec::new();
+        for (k, len, seed) in &acks {
+            let o = self.exec(&format!("r {}", k));
+            let want = if *len == 0 { "found 0:0".to_string() } else { format!("found {}:{}", len, seed) };
+            if o != want {
+                missing.push((k.clone(), *len, *seed));
+            }
+        }
+        let mut quarantined = 0usize;
+        if !missing.is_empty() {
+            // look for them in the quarantined blobs with the recovery tool
+            let cdir = self.dir.join("corrupted");
+            let mut restored: std::collections::HashSet<Vec<u8>> = Default::default();
+            if let Ok(rd) = std::fs::read_dir(&cdir) {
+                for e in rd.flatten() {
+                    let p = e.path();
+                    if p.extension().map_or(false, |x| x == "blob") {
+                        quarantined += 1;
+                        let out = self.dir.with_file_name(format!("{}-rec.blob", self.dir.file_name().unwrap().to_string_lossy()));
+                        let _ = std::fs::remove_file(&out);
+                        if recovery_blob(&p, &out, 0, true).is_ok() {
+                            let ob = std::fs::read(&out).unwrap_or_default();
+                            let layout = Self::parse_blob(&ob);
+                            for (start, hsz, ms, ds) in layout {
+                                if start + hsz + ms + ds <= ob.len() {
+                                    let klen = hsz - 57;
+                                    let key = ob[start + 16..start + 16 + klen].to_vec();
+                                    let data = &ob[start + hsz + ms..start + hsz + ms + ds];
+                                    // bytes must be the generator's output for the acknowledged (len, seed)
+                                    if let Some((_, len, seed)) = acks.iter().find(|a| hex_bytes(&a.0).as_deref() == Some(&key[..])) {
+                                        if data == &gen_data(*len, *seed)[..] {
+                                            restored.insert(key);
+                                        }
+                                    }
+                                }
+                            }
+                        }
+                        let _ = std::fs::remove_file(&out);
+                    }
+                }
+            }
+            for (k, len, seed) in &missing {
+                let kb = hex_bytes(k).unwrap_or_default();
+                if !restored.contains(&kb) {
+                    return format!("sweep bad acknowledged record {} ({}:{}) is neither served nor restorable from a quarantined blob ({} quarantined)", k, len, seed, quarantined);
+                }
+            }
+        }
+        // was a torn tail record accepted at start-up?
+        let mut torn = false;
+        if let Ok(rd) = std::fs::read_dir(&self.dir) {
+            for e in rd.flatten() {
+                let p = e.path();
+                if p.extension().map_or(false, |x| x == "blob") {
+                    let b = std::fs::read(&p).unwrap_or_default();
+                    if let Some((s0, h, m, d)) = Self::parse_blob(&b).last() {
+                        if s0 + h <= b.len() && s0 + h + m + d > b.len() {
+                            torn = true;
+                        }
+                    }
+                }
+            }
+        }
+        let fresh = "fe".repeat(N);
+        let w = self.exec(&format!("w {} 999 - 9 201", fresh));
+        let mut ok2 = w.starts_with("ok");
+        if ok2 {
+            if let Some(st) = self.st.take() {
+                let _ = self.rt.block_on(async { tokio::time::timeout(Duration::from_secs(60), st.close()).await });
+            }
+            if let Ok(rd) = std::fs::read_dir(&self.dir) {
+                for e in rd.flatten() {
+                    if e.path().extension().map_or(false, |x| x == "index") {
+                        let _ = std::fs::remove_file(e.path());
+                    }
+                }
+            }
+            let r2 = self.open(false);
+            ok2 = r2 == "ok" && self.exec(&format!("r {}", fresh)) == "found 9:201";
+        }
+        if !ok2 {
+            if torn {
+                return format!("sweep ok n={} q={} e8=1", acks.len(), quarantined);
+            }
+            return "sweep bad a write made after recovery did not survive the next restart".into();
+        }
+        format!("sweep ok n={} q={} e8=0", acks.len(), quarantined)
+    }
+
+    /// `crashsweep <budget> <seed>`: power-loss states at a quiescent point.  For every blob the bytes beyond its last
+    /// sync may be missing: the file is cut at every length between the synced size and the current size (every byte
+    /// when that region is short, boundaries and samples otherwise); index files are kept / removed / cut / left
+    /// half-written.  Each state is opened in a copy: init must succeed; a blob is served with a prefix of its
+    /// acknowledged records (plus possibly a torn tail record whose reads fail) or is quarantined intact; blobs that
+    /// were fully synced are served in full; reads never return foreign bytes; a write made after recovery must
+    /// survive a further clean restart without index files.
+    fn crashsweep(&mut self, toks: &[&str]) -> String {
+        let budget: usize = toks.get(1).and_then(|x| x.parse().ok()).unwrap_or(30);
+        let mut x: u64 = toks.get(2).and_then(|x| x.parse().ok()).unwrap_or(1) | 1;
+        let mut rnd = move || {
+            x ^= x << 13;
+            x ^= x >> 7;
+            x ^= x << 17;
+            x
+        };
+        let st = match self.st.as_ref() {
+            Some(s) => s,
+            None => return "err NoStorage".into(),
+        };
+        let states = self.rt.block_on(async {
+            Self::quiesce(st).await;
+            st.verif_blob_states().await
+        });
+        let orig = self.dir.clone();
+        let copy = orig.with_file_name(format!("{}-crash", orig.file_name().unwrap().to_string_lossy()));
+        // candidate crash states: (blob id, cut length, index variant)
+        let mut cands: Vec<(usize, u64, &'static str)> = Vec::new();
+        for b in &states {
+            let synced = b.file_size - b.dirty;
+            let path = orig.join(format!("t.{}.blob", b.id));
+            let bytes = std::fs::read(&path).unwrap_or_default();
+            let layout = Self::parse_blob(&bytes);
+            let mut cuts: Vec<u64> = Vec::new();
+            if b.dirty == 0 {
+                cuts.push(b.file_size);
+            } else if b.dirty <= 260 {
+                for l in synced..=b.file_size {
+                    cuts.push(l);
+                }
+            } else {
+                cuts.push(synced);
+                cuts.push(b.file_size);
+                for (start, hsz, ms, ds) in &layout {
+                    let e = (start + hsz + ms + ds) as u64;
+                    for c in [*start as u64, *start as u64 + 1, (start + hsz / 2) as u64, (start + hsz) as u64 - 1,
+                              (start + hsz) as u64, (start + hsz + ms) as u64, (start + hsz + ms + ds / 2) as u64, e - 1, e] {
+                        if c >= synced && c <= b.file_size {
+                            cuts.push(c);
+                        }
+                    }
+                }
+                for _ in 0..6 {
+                    cuts.push(synced + rnd() % (b.dirty + 1));
+                }
+            }
+            cuts.sort();
+            cuts.dedup();
+            for c in cuts {
+                for iv in ["keep", "rm", "cut", "unwritten"] {
+                    if iv != "keep" && !orig.join(format!("t.{}.index", b.id)).exists() {
+                        continue;
+                    }
+                    if iv != "keep" && c != b.file_size && rnd() % 3 != 0 {
+                        continue;
+                    }
+                    cands.push((b.id, c, iv));
+                }
+            }
+        }
+        let total = cands.len();
+        let chosen: Vec<usize> = if total <= budget { (0..total).collect() } else { (0..budget).map(|i| (i * total) / budget).collect() };
+        let mut n = 0usize;
+        let mut e8 = 0usize;
+        let mut bad: Option<String> = None;
+        let live = self.st.take();
+        'outer: for ci in chosen {
+            let (bid, cut, iv) = cands[ci];
+            Self::copy_dir(&orig, &copy);
+            let _ = std::fs::remove_file(copy.join("pearl.lock"));
+            let bpath = copy.join(format!("t.{}.blob", bid));
+            let full = std::fs::read(&bpath).unwrap_or_default();
+            let cutb = full[..(cut as usize).min(full.len())].to_vec();
+            std::fs::write(&bpath, &cutb).unwrap();
+            let ipath = bpath.with_extension("index");
+            match iv {
+                "rm" => {
+                    let _ = std::fs::remove_file(&ipath);
+                }
+                "cut" => {
+                    if let Ok(ib) = std::fs::read(&ipath) {
+                        let l = (rnd() as usize) % ib.len().max(1);
+                        let _ = std::fs::write(&ipath, &ib[..l]);
+                    }
+                }
+                "unwritten" => {
+                    Self::damage_index(&ipath, "unwritten");
+                }
+                _ => {}
+            }
+            let what = format!("blob {} cut at {} of {} (index {})", bid, cut, full.len(), iv);
+            let recs = Self::parse_records(&full);
+            let layout = Self::parse_blob(&full);
+            let n_full = layout.iter().filter(|(s0, h, m, d)| (s0 + h + m + d) as u64 <= cut).count();
+            let torn_hdr_complete = layout.iter().any(|(s0, h, m, d)| ((s0 + h) as u64) <= cut && ((s0 + h + m + d) as u64) > cut);
+            n += 1;
+            self.dir = copy.clone();
+            let r = self.open(false);
+            if r != "ok" {
+                self.dir = orig.clone();
+                bad = Some(format!("{}: init {}", what, r));
+                break 'outer;
+            }
+            let after = self.rt.block_on(async { self.st.as_ref().unwrap().verif_blob_states().await });
+            let served = after.iter().find(|b| b.id == bid).map(|b| b.records);
+            let mut torn_accepted = false;
+            match served {
+                Some(c) => {
+                    if c == n_full + 1 && torn_hdr_complete {
+                        torn_accepted = true;
+                    } else if c != n_full {
+                        bad = Some(format!("{}: {} records served, {} are complete in the surviving prefix (of {})", what, c, n_full, recs.len()));
+                    }
+                }
+                None => {
+                    // quarantined: the file must be preserved intact in the corrupted dir
+                    let q = copy.join("corrupted").join(format!("t.{}.blob", bid));
+                    let qb = std::fs::read(&q).unwrap_or_default();
+                    let untouched_header_only = cutb.len() <= 20;
+                    if qb != cutb && !untouched_header_only && !self.cfg.ignore {
+                        bad = Some(format!("{}: blob vanished and is not preserved intact in the corrupted dir", what));
+                    }
+                }
+            }
+            // other blobs must be served in full
+            if bad.is_none() {
+                for b in &states {
+                    if b.id != bid {
+                        let c = after.iter().find(|a| a.id == b.id).map(|a| a.records);
+                        if c != Some(b.records) {
+                            bad = Some(format!("{}: blob {} served {:?} records, had {}", what, b.id, c, b.records));
+                        }
+                    }
+                }
+            }
+            if bad.is_none() {
+                let answers = self.collect_answers();
+                for (cmd, out) in &answers {
+                    if out.contains(":?") {
+                        bad = Some(format!("{}: `{}` returned bytes that were never written: {}", what, cmd, out));
+                        break;
+                    }
+                    if out.contains("err ") && !torn_accepted {
+                        bad = Some(format!("{}: `{}` fails although no torn record was accepted: {}", what, cmd, out));
+                        break;
+                    }
+                }
+            }
+            // a write made after recovery must survive a further restart without index files
+            if bad.is_none() {
+                let fresh = "fe".repeat(N);
+                let w = self.exec(&format!("w {} 999 - 9 201", fresh));
+                let mut ok2 = w.starts_with("ok");
+                if ok2 {
+                    if let Some(st) = self.st.take() {
+                        let _ = self.rt.block_on(async { tokio::time::timeout(Duration::from_secs(60), st.close()).await });
+                    }
+                    if let Ok(rd) = std::fs::read_dir(&copy) {
+                        for e in rd.flatten() {
+                            if e.path().extension().map_or(false, |x| x == "index") {
+                                let _ = std::fs::remove_file(e.path());
+                            }
+                        }
+                    }
+                    let r2 = self.open(false);
+                    ok2 = r2 == "ok" && self.exec(&format!("r {}", fresh)) == "found 9:201";
+                }
+                if !ok2 {
+                    if torn_accepted {
+                        e8 += 1; // known finding E8: the accepted torn tail record poisons the next index-less scan
+                    } else {
+                        bad = Some(format!("{}: a write made after recovery did not survive the next restart", what));
+                    }
+                }
+            }
+            if let Some(st) = self.st.take() {
+                let _ = self.rt.block_on(async { tokio::time::timeout(Duration::from_secs(60), st.close()).await });
+            }
+            self.dir = orig.clone();
+            if bad.is_some() {
+                break 'outer;
+            }
+        }
+        let _ = std::fs::remove_dir_all(&copy);
+        self.dir = orig;
+        self.st = live;
+        match bad {
+            None => format!("sweep ok n={} e8={}", n, e8),
+            Some(b) => format!("sweep bad {}", b),
+        }
+    }
+
     /// (key, timestamp, flags, data len) of every record of a blob image, parsed independently of pearl
     fn parse_records(bytes: &[u8]) -> Vec<(Vec<u8>, u64, u8, usize)> {
         let mut out = Vec::new();
@@ -995,6 +1300,12 @@ impl<const N: usize> ScenN<N> {
         }
         if toks[0] == "toolsweep" {
             return self.toolsweep(&toks);
+        }
+        if toks[0] == "crashsweep" {
+            return self.crashsweep(&toks);
+        }
+        if toks[0] == "killcheck" && toks.len() >= 2 {
+            return self.killcheck(toks[1]);
         }
         if toks[0] == "restart" || toks[0] == "close" {
             let lazy = toks.len() > 1 && toks[1] == "lazy";
